@@ -144,9 +144,9 @@ named/keyed/spread, arrays, dictionaries, parentheses, code blocks — comments,
 anywhere, any node marked `@typstyle off`), every fuel, context and configuration: whatever the printer
 returns renders at every width and indent unit to a layout whose code tokens are exactly the tree's.
 Proved by induction over the knot from per-construct theorems (Proofs/Carries*.lean). -/
-theorem C01_fragment_tokens_preserved (e : Env) (fuel : Nat) (ctx : Ctx) (n : ANode) (hx : isExpr n = true) (hq : inFrag n = true)
+theorem C01_fragment_tokens_preserved (e : Env) (fuel : Nat) (ctx : Ctx) (hctx : NM ctx) (n : ANode) (hx : isExpr n = true) (hq : inFrag n = true)
     (d : Twin.Doc) (k k' : St) (h : ((knot e fuel).expr ctx n).run k = .ok (d, k')) (u w : Nat) :
     tokText (best w 0 [⟨0, .brk, d.fam u⟩]) = (specToks n).toList :=
-  (routeM_expr e fuel ctx n hx hq d k k' h u w).1
+  (routeM_expr e fuel ctx hctx n hx hq d k k' h u w).1
 
 end Typstyle
